@@ -95,9 +95,58 @@ def _run(args):
         obj = Sv.CGNEQSolver(tol=tol, max_iter=cfg["max_iter"], preconditioner_rank=cfg.get("prec", 0), seed=cfg.get("pseed"))
         call = obj.compute
     before = copy.deepcopy(vars(obj))
+    # ---- observe (and optionally fault-inject) the micro-solvers by wrapping them from the harness
+    micro = {"spd_ok": 0, "spd_fail": 0, "ns_fallback": 0, "qr": 0, "qr_raise": 0}
+    RSP = Sv.RandomizedSketchProjectPseudoinverse
+    orig_spd, orig_inv = RSP._solve_spd_quat, RSP._invert_quat_small
+    import decomp.qsvd as _qsvd_flat
+    inj = cfg.get("inject", {})
+    calls = {"spd": 0, "qr": 0}
+
+    def w_spd(self_, G, B, tol=1e-8, max_iter=200):
+        calls["spd"] += 1
+        Z, ok = orig_spd(self_, G, B, tol=tol, max_iter=max_iter)
+        if inj.get("spd_fail_every") and calls["spd"] % inj["spd_fail_every"] == 0:
+            ok = False                                   # injected fault: the CG micro-solver reports failure
+        micro["spd_ok" if ok else "spd_fail"] += 1
+        return Z, ok
+
+    def w_inv(self_, G, ns_iters=12):
+        micro["ns_fallback"] += 1
+        return orig_inv(self_, G, ns_iters=ns_iters)
+    RSP._solve_spd_quat, RSP._invert_quat_small = w_spd, w_inv
+    qr_mods = []
+    import importlib as _il
+    try:
+        _il.import_module("quatica.decomp.qsvd")       # the solvers import qr_qua from the package copy at call time
+    except Exception:
+        pass
+    for modname in ("quatica.decomp.qsvd", "decomp.qsvd"):
+        import sys as _sys
+        mod = _sys.modules.get(modname)
+        if mod is not None and hasattr(mod, "qr_qua"):
+            qr_mods.append((mod, mod.qr_qua))
+
+    def make_qr(orig_qr):
+        def w_qr(Y):
+            calls["qr"] += 1
+            if inj.get("qr_raise_every") and calls["qr"] % inj["qr_raise_every"] == 0:
+                micro["qr_raise"] += 1
+                raise np.linalg.LinAlgError("injected QR failure")
+            micro["qr"] += 1
+            return orig_qr(Y)
+        return w_qr
+    if kind in ("rsp", "rsp_col", "hybrid") and cfg.get("solver") == "qr":
+        for mod, oq in qr_mods:
+            mod.qr_qua = make_qr(oq)
     np.random.seed(seed)
-    with Recorder() as rec, contextlib.redirect_stdout(io.StringIO()):
-        X, info = call(Aq)
+    try:
+        with Recorder() as rec, contextlib.redirect_stdout(io.StringIO()):
+            X, info = call(Aq)
+    finally:
+        RSP._solve_spd_quat, RSP._invert_quat_small = orig_spd, orig_inv
+        for mod, oq in qr_mods:
+            mod.qr_qua = oq
     after = vars(obj)
     Xf = q_to_float(np.asarray(X))
     fin = bool(np.all(np.isfinite(Xf)))
@@ -137,6 +186,8 @@ def _run(args):
          "expect_converge": bool(kind == "cgne" and cfg.get("prec", 0) == 0 and cond <= 1e3 and cfg.get("max_iter", 0) >= 400 and tol >= 1e-8),
          "hist_nonincreasing": bool(all(hist[i + 1] <= hist[i] * (1 + 1e-9) + 1e-15 for i in range(len(hist) - 1))),
          "config_unchanged": bool(set(before) == set(after) and all(before[k] == after[k] for k in before)),
+         "micro": dict(micro), "updates": int(micro["spd_ok"] + micro["spd_fail"] + micro["qr"]) if kind in ("rsp", "rsp_col", "rsp_row") else -1,
+         "skipped": int(micro["qr_raise"]), "inject": dict(inj),
          "seed": seed}
     return e
 
@@ -163,7 +214,12 @@ def run(ctx, replay=None):
             ("rsp", {"block": 2, "solver": "qr", "max_iter": 300, "test": 2}), ("rsp_col", {"block": 3, "solver": "spd", "max_iter": 300, "test": 3}),
             ("rsp", {"block": 1, "solver": "spd", "max_iter": 400, "test": 1}),
             ("hybrid", {"block": 2, "p": 4, "T": 3, "solver": "qr", "max_iter": 120}),
-            ("cgne", {"max_iter": 500})]
+            ("cgne", {"max_iter": 500}),
+            # fault sequences: the CG micro-solver reports failure every 2nd call (Newton-Schulz fallback path),
+            # the thin QR raises every 3rd call (the step is skipped)
+            ("rsp_col", {"block": 2, "solver": "spd", "max_iter": 300, "inject": {"spd_fail_every": 2}}),
+            ("rsp", {"block": 2, "solver": "qr", "max_iter": 300, "inject": {"qr_raise_every": 3}}),
+            ("hybrid", {"block": 2, "p": 4, "T": 3, "solver": "spd", "max_iter": 120, "inject": {"spd_fail_every": 2}})]
     if thorough:
         cfgs += [("hybrid", {"block": 3, "p": 2, "T": 5, "solver": "spd", "max_iter": 150}), ("hybrid", {"block": 2, "p": 8, "T": 2, "solver": "qr", "max_iter": 100}),
                  ("cgne", {"max_iter": 500, "prec": 2, "pseed": 3}), ("rsp_col", {"block": 3, "solver": "spd", "max_iter": 300})]
